@@ -39,7 +39,17 @@ def r_padding(r, legal_only=False):
 
 
 def r_text(r, n):
-    """n bytes of valid UTF-8"""
+    """n bytes of valid UTF-8 (sometimes with NUL octets, sometimes ending in one)"""
+    out = bytearray(_r_text(r, n))
+    if n and out[-1] < 0x80 and r.random() < 0.12:
+        out[-1] = 0
+    if n > 2 and r.random() < 0.05:
+        i = r.randrange(n)
+        if out[i] < 0x80: out[i] = 0
+    return bytes(out)
+
+
+def _r_text(r, n):
     out = bytearray()
     while len(out) < n:
         left = n - len(out)
